@@ -40,6 +40,34 @@ def shape_grid(seed, tag, tier):
     return out
 
 
+def pdiag_grid(seed, tag, tier):
+    """(cls, Rc, Rx, Dy, Dx) tuples for the cases whose prior p(x) is a GaussianDiagPDF (tag '/pdiag'): every conditional
+    class (full-covariance ones included: a diagonal prior must not make the result diagonal) x batch regimes"""
+    out = [("full", 1, 1, 2, 3), ("identity", 1, 1, 3, 3), ("identity", 1, 2, 2, 2), ("identity", 2, 1, 2, 2),
+           ("identitydiag", 1, 1, 2, 2), ("identitydiag", 1, 3, 3, 3), ("diag", 1, 2, 2, 2)]
+    if tier != "quick":
+        out += [("full", 3, 1, 3, 2), ("full", 1, 2, 1, 2), ("identitydiag", 2, 1, 3, 3), ("diag", 2, 1, 3, 2), ("identity", 1, 4, 4, 4)]
+    return out
+
+
+def upd_history(m, rng, c, p, kind, tag):
+    """tag '/upd': the conditional has a history — it was already used for the same transformation and its noise covariance
+    was then replaced with update_Sigma; everything derived from Sigma must follow (no stale memo)"""
+    if "upd" not in tag:
+        return
+    m.transform(kind, c.reg, p.reg)
+    S2 = gen.pd_batch(rng, c.R, c.Dy, diag=(c.cls in ("diag", "identitydiag")))
+    m.update_sigma(c.reg, S2)
+    c.Sigma = S2
+
+
+def upd_grid(seed, tag, tier):
+    out = [("full", 1, 1, 2, 3), ("identity", 1, 2, 2, 2), ("diag", 2, 1, 3, 2), ("identitydiag", 1, 1, 3, 3)]
+    if tier != "quick":
+        out += [("full", 1, 3, 3, 2), ("full", 2, 1, 1, 2), ("identity", 3, 1, 2, 2), ("diag", 1, 2, 2, 2)]
+    return out
+
+
 def joint_ref(c, p, ci, xi):
     """dense reference joint N over (x, y) for conditional component ci and prior component xi"""
     M, b, Sy = c.M[ci], c.b[ci], c.Sigma[ci]
@@ -57,7 +85,8 @@ def case_joint(prop, cls, Rc, Rx, Dy, Dx, tag=""):
         rng = gen.rng_path(m.seed, label)
         fails = []
         c = mk_cond(m, rng, cls, Rc, Dy, Dx)
-        p = mk_pdf(m, rng, Rx, Dx)
+        p = mk_pdf(m, rng, Rx, Dx, diag=("pdiag" in tag))      # tag '/pdiag': the prior is a GaussianDiagPDF
+        upd_history(m, rng, c, p, "joint", tag)
         j = m.transform("joint", c.reg, p.reg)
         params = dict(cls=cls, Rc=Rc, Rx=Rx, Dy=Dy, Dx=Dx)
         if m.regs.get(j) is None:
@@ -97,7 +126,8 @@ def case_marginal(prop, cls, Rc, Rx, Dy, Dx, tag=""):
         rng = gen.rng_path(m.seed, label)
         fails = []
         c = mk_cond(m, rng, cls, Rc, Dy, Dx)
-        p = mk_pdf(m, rng, Rx, Dx)
+        p = mk_pdf(m, rng, Rx, Dx, diag=("pdiag" in tag))      # tag '/pdiag': the prior is a GaussianDiagPDF
+        upd_history(m, rng, c, p, "marginal", tag)
         mg = m.transform("marginal", c.reg, p.reg)
         params = dict(cls=cls, Rc=Rc, Rx=Rx, Dy=Dy, Dx=Dx)
         if m.regs.get(mg) is None:
@@ -131,7 +161,8 @@ def case_conditional(prop, cls, Rc, Rx, Dy, Dx, tag=""):
         rng = gen.rng_path(m.seed, label)
         fails = []
         c = mk_cond(m, rng, cls, Rc, Dy, Dx)
-        p = mk_pdf(m, rng, Rx, Dx)
+        p = mk_pdf(m, rng, Rx, Dx, diag=("pdiag" in tag))      # tag '/pdiag': the prior is a GaussianDiagPDF
+        upd_history(m, rng, c, p, "conditional", tag)
         post = m.transform("conditional", c.reg, p.reg)
         params = dict(cls=cls, Rc=Rc, Rx=Rx, Dy=Dy, Dx=Dx)
         if m.regs.get(post) is None:
@@ -234,7 +265,7 @@ def case_info(prop, cls, Rc, Rx, Dy, Dx, tag="", zero_M=False):
             c = Obj(m.cond(Rc, Dy, Dx, M, b, Sigma=S, diag=(cls == "diag")), M=M, b=b, Sigma=S, R=Rc, Dy=Dy, Dx=Dx, cls=cls)
         else:
             c = mk_cond(m, rng, cls, Rc, Dy, Dx)
-        p = mk_pdf(m, rng, Rx, Dx)
+        p = mk_pdf(m, rng, Rx, Dx, diag=("pdiag" in tag))      # tag '/pdiag': the prior is a GaussianDiagPDF
         params = dict(cls=cls, Rc=Rc, Rx=Rx, Dy=Dy, Dx=Dx)
         ce = m.transform("cond_entropy", c.reg, p.reg)
         mi = m.transform("mutual_information", c.reg, p.reg)
